@@ -112,7 +112,8 @@ def build_coq(timeout=1500):
 def gate():
     """Forbidden vernacular anywhere in the development (comments stripped)."""
     hits = []
-    for rel in _coq_files():
+    gen = [os.path.join("gen", f) for f in sorted(os.listdir(os.path.join(COQ, "gen"))) if f.endswith(".v")] if os.path.isdir(os.path.join(COQ, "gen")) else []
+    for rel in list(_coq_files()) + gen:
         src = open(os.path.join(COQ, rel)).read()
         src = strip_comments(src)
         for i, line in enumerate(src.split("\n"), 1):
